@@ -2,8 +2,12 @@
 
 Statement oracle (only what the property text demands):
   limit_df      the returned rows are a selection of the input rows in table order; every cycle ENTIRELY inside
-                [start, stop] is among them and no cycle ENTIRELY outside (exact rational arithmetic on the float
-                limits; partially overlapping cycles are not constrained); every column of the input is still there
+                [start, stop] is among them and no cycle ENTIRELY outside.  Where a cycle lies is decided by the TIME
+                STAMPS of its first and last sample on the library's own time axis, t(k) = k / fs in binary64
+                (arange(n) / fs): inside = t(last) >= start and t(next) <= stop; outside = t(next) < start or
+                t(last) > stop; every other cycle (partial overlap) is not constrained (Props/C18.v:
+                C18_keep_row_iff, C18_outside_not_kept; C18_inside_kept_real / C18_outside_not_kept_real give the
+                real-number reading); every column of the input is still there
                 and every non-sample value of a returned row is the value it had (NaN = NaN, dtype not compared); the
                 six sample columns of all returned rows differ from the input by ONE offset: 0 without reset_indices;
                 with it an integer next to fs*start, and exactly fs*start when that is a sample index.
@@ -34,8 +38,8 @@ COQ_STREAMS = {
 }
 RULE = ('limit_df on (a) synthetic tiled cycle tables of both centrings with int sample columns and int / float / NaN-bearing float / '
         'bool / string / >2^53 int feature columns, rows chronological, stacked or shuffled, and (b) tables computed by compute_features '
-        '(pipeline.gen_case, both centrings, both burst methods); fs in {1, 30, 100, 250, 512} (a: also -1, -250, 0 = outside the domain, '
-        'model comparison only; and tables moved so that a limit falls on a sample b with (b/fs)*fs != b in binary64), start/stop in {None, exactly on a cycle boundary, between boundaries, before/after everything, reversed}, '
+        '(pipeline.gen_case, both centrings, both burst methods); fs in {1, 30, 100, 250, 512} (a: also -1, -250, 0, -0.0, nan, inf = outside the domain, '
+        'model comparison only; and 12 % of the tables moved so that the first sample of a cycle is a sample k with (k/fs)*fs > k, or the last sample of a cycle a sample k with (k/fs)*fs < k, or the other way round, and the start resp. stop put on the time stamp k/fs of exactly that sample; fs in {100, 50, 200, 30, 7, 300}), start/stop in {None, exactly on a cycle boundary, between boundaries, before/after everything, reversed}, '
         'reset_indices both; limit_signal on sample grids with limits None / on-grid / off-grid; split_samples_df / drop_samples_df on '
         'tables whose column names start with, contain, or nearly spell "sample_" (n_sample_*, resample_*, samples_*, Sample_*, sample, '
         'sample_) with int / float+NaN / bool / string columns, and on compute_features tables; flatten_dfs on 1-D and 2-D lists of tables '
@@ -43,7 +47,8 @@ RULE = ('limit_df on (a) synthetic tiled cycle tables of both centrings with int
         'matching and mismatching label counts. '
         'non-trivial = a window that keeps some but not all rows / samples, >= 2 tables flattened, or a split with both kinds of column')
 ASSUMPTIONS = ['each row is a cycle (last side < next side); rows are tiled and chronological in most cases, stacked or shuffled in the rest',
-               'fs > 0 for the statement oracle; calls with invalid limits may raise (any class) or return what the statement says',
+               'finite fs > 0 for the statement oracle (fs <= 0, NaN, inf: model comparison only; the model expects ValueError for fs = 0 of either sign); calls with invalid limits may raise (any class) or return what the statement says',
+               'a cycle is inside / outside the window according to the binary64 time stamps k / fs of its first and last sample',
                'values are compared as values (NaN equal to NaN), never by dtype: an int column returned as float alters no value']
 TRUST = ['tables of stream (b) are produced by the current compute_features; only their windowing is judged here (their content is C01-C07)']
 
@@ -106,30 +111,40 @@ def cases(rng, tier):
         a, b = lim(), lim()
         if a is not None and b is not None and a > b and rng.random() < 0.7:
             a, b = b, a
-        if rows and rng.random() < 0.1:
-            # boundaries whose time stamp does not survive the round trip (b / fs) * fs in binary64 (e.g. 29 at 100 Hz
-            # gives 28.999999999999996): move the table so that one of its boundaries is such a sample and put a
-            # limit exactly on it
+        grid = None
+        if rows and rng.random() < 0.12:
+            # limits that are time stamps k / fs of a cycle's first / last sample whose round trip (k / fs) * fs is
+            # not k in binary64 (7 at 100 Hz gives 7.000000000000001, 29 gives 28.999999999999996): move the table so
+            # that sample k is the first sample of a cycle and start = k / fs, or the last sample of a cycle and
+            # stop = k / fs.  'start/up' and 'stop/down' are the directions in which comparing k with limit * fs loses the
+            # cycle that begins / ends exactly on the limit; the other two exercise the offset and the selection of
+            # the neighbouring cycle.
             fs = rng.choice([100.0, 50.0, 200.0, 30.0, 7.0, 300.0])
-            inexact = [v for v in range(2, 700) if (v / fs) * fs != v]
-            t, bnd = rng.choice(inexact), rng.choice(bounds)
+            side = rng.choice(['start', 'stop'])
+            up = rng.random() < (0.7 if side == 'start' else 0.3)
+            inexact = [v for v in range(2, 700) if ((v / fs) * fs > v if up else (v / fs) * fs < v)]
+            i = rng.randrange(len(rows))
+            t, bnd = rng.choice(inexact), rows[i][1 if side == 'start' else 2]
             delta = t - bnd
             if min(min(r) for r in rows) + delta >= 0:
                 rows = [[v + delta for v in r] for r in rows]
                 bounds = [v + delta for v in bounds]
-                if rng.random() < 0.6:
+                later = [v for v in bounds if v >= rows[i][2]]
+                earlier = [v for v in bounds if v <= rows[i][1]]
+                if side == 'start':
                     a = t / fs
-                    if b is not None and b < a:
-                        b = None
+                    b = rng.choice([None, rng.choice(later) / fs, (rng.choice(later) + 0.5) / fs])
                 else:
                     b = t / fs
-                    if a is not None and a > b:
-                        a = None
+                    a = rng.choice([None, 0.0, rng.choice(earlier) / fs, max(0.0, (rng.choice(earlier) - 0.5) / fs)])
+                grid = side + ('/up' if up else '/down')
         c = {'kind': 'limit_df', 'center': rng.choice(['peak', 'trough']), 'rows': rows, 'fs': fs, 'start': a, 'stop': b,
              'reset': rng.random() < 0.6, 'index': rng.choice(['default', 'default', 'offset', 'reversed']),
              'label_col': rng.random() < 0.3}
-        if rng.random() < 0.03:         # a sampling rate outside the documented range: not judged by the oracle
-            c['fs'] = rng.choice([-1.0, -250.0, 0.0])
+        if grid:
+            c['grid'] = grid
+        if rng.random() < 0.04:         # a sampling rate outside the documented range: not judged by the oracle
+            c['fs'] = rng.choice([-1.0, -250.0, 0.0, 0.0, -0.0, -0.0, float('nan'), float('inf')])
         out.append(c)
     # windows on tables computed by compute_features; the limits are resolved on the computed table (run_impl)
     for _ in range(150 if quick else 1200):
@@ -451,7 +466,7 @@ def _limits_valid(a, b):
 
 def _judge_limit_df(c, o):
     in_rows, fs, start, stop = o['in_rows'], o['fs'], o['start'], o['stop']
-    if not fs > 0:
+    if not (fs > 0 and math.isfinite(fs)):
         return None                      # times are undefined: outside the property (the model pins the behaviour)
     if 'err' in o:
         if not _limits_valid(start, stop):
@@ -459,23 +474,20 @@ def _judge_limit_df(c, o):
         return 'raised %s (%s) for valid limits start=%s stop=%s on a %s-centred table' % (o['err'], o.get('msg'), start, stop, o['center'])
     if 'unreadable' in o:
         return o['unreadable']
-    lo = Fr(0) if start is None else Fr(start) * Fr(fs)
-    hi = None if stop is None else Fr(stop) * Fr(fs)
+    lo = 0.0 if start is None else start
     n = len(in_rows)
     ids = [r['id'] for r in o['rows']]
     if any(not (0 <= i < n) for i in ids) or any(b <= a for a, b in zip(ids, ids[1:])):
         return 'returned rows are not a selection of the input rows in table order: row ids %s' % ids[:12]
     got = set(ids)
-    inside = [i for i, r in enumerate(in_rows) if r[1] >= lo and (hi is None or r[2] <= hi)]
+    # the time stamp of sample k on the library's time axis arange(n) / fs: binary64 k / fs
+    t = lambda k: k / fs
+    inside = [i for i, r in enumerate(in_rows) if t(r[1]) >= lo and (stop is None or t(r[2]) <= stop)]
     lost = [i for i in inside if i not in got]
     if lost:
         return 'selection: cycle(s) %s lying entirely inside [start, stop] were dropped (start=%s stop=%s fs=%s, samples %s)' % (
             lost[:5], start, stop, fs, [in_rows[i][1:3] for i in lost[:5]])
-    # "entirely outside" is judged with a margin of 1e-9 samples (relative): a cycle that ends within float accuracy
-    # of the window start (start = 2.2 is the double just above 66/30) touches the window for all practical purposes
-    eps_lo = max(abs(lo), 1) / 10 ** 9
-    eps_hi = 0 if hi is None else max(abs(hi), 1) / 10 ** 9
-    extra = [i for i in ids if in_rows[i][2] < lo - eps_lo or (hi is not None and in_rows[i][1] > hi + eps_hi)]
+    extra = [i for i in ids if t(in_rows[i][2]) < lo or (stop is not None and t(in_rows[i][1]) > stop)]
     if extra:
         return 'selection: cycle(s) %s lying entirely outside [start, stop] were kept (start=%s stop=%s fs=%s, samples %s)' % (
             extra[:5], start, stop, fs, [in_rows[i][1:3] for i in extra[:5]])
@@ -490,7 +502,7 @@ def _judge_limit_df(c, o):
         if not c['reset'] and offs[0] != 0:
             return 'shift: sample columns shifted by %d although reset_indices is False' % offs[0]
         if c['reset']:
-            x = lo                            # fs * start, exactly
+            x = (Fr(0) if start is None else Fr(start)) * Fr(fs)    # fs * start, exactly
             if abs(Fr(offs[0]) - x) >= 1 or (abs(x - round(x)) < Fr(1, 10 ** 6) and offs[0] != round(x)):
                 return 'shift: offset %d is not the sample index of the window start fs*start = %s' % (offs[0], float(x))
     return None
@@ -570,8 +582,11 @@ def kind_of(c, o):
         return k + '/skip: ' + o['skip']
     if c['kind'] == 'limit_df':
         k += '/' + o.get('center', '?')
-        if not o.get('fs', 1) > 0:
-            k += '/fs<=0'
+        fs = o.get('fs', 1)
+        if not (fs > 0 and math.isfinite(fs)):
+            k += '/fs<=0' if fs <= 0 else '/fs-nan-inf'
+        if c.get('grid'):
+            k += '/grid:' + c['grid']    # a limit on the time stamp k/fs of a cycle boundary k with (k/fs)*fs != k
         if o.get('input_unchanged') is False:
             k += '/input-modified'       # not a clause of C18; recorded only
     return k + ('/err' if 'err' in o else '')
